@@ -16,8 +16,8 @@
    This file contains only property theorems, each closed by `exact <lemma>` and followed by
    Print Assumptions, and the statements that are not proved (Definition C13_full_...). *)
 From SV Require Import Base.Prelude Model.Mailbox Model.MailboxNet Model.C13Run
-  Proof.MailboxNetLift Proof.MailboxStepFacts Proof.MailboxNetFlow Proof.MailboxNetBound Proof.MailboxNetChain
-  Proof.MailboxNetLazy Proof.MailboxNetExamples.
+  Proof.MailboxNetLift Proof.MailboxStepFacts Proof.MailboxMeasure Proof.MailboxNetFlow Proof.MailboxNetBound
+  Proof.MailboxNetChain Proof.MailboxNetQuiesce Proof.MailboxNetLazy Proof.MailboxNetExamples.
 Local Open Scope nat_scope.
 
 (* No mailbox of any network ever holds more than max_messages undelivered messages: any wiring (any
@@ -88,31 +88,49 @@ Theorem C13_wellformed_check :
 Proof. exact wf_b_GI. Qed.
 Print Assumptions C13_wellformed_check.
 
-(* quiescence_bound_chain, counting part: a chain of L senders (source + L-1 plugins) with max_messages c,
-   eager or lazy, the consumer takes p chunks: in every reachable state of every schedule the source has
-   been advanced at most p + B_chain L c = p + 2cL + 1 times, whatever the run length N.  (Hence, once the
-   consumer has its p chunks, at most B_chain L c further source chunks.) *)
-Theorem C13_quiescence_bound_chain_partial :
-  forall (L c : nat) (lz : bool) (p N : nat) (sched : list nat) (n : net),
-    1 <= L -> nrun (chain_net L c lz p N) sched = Some n ->
-    advances N (n_boxes n) 0 <= p + B_chain L c.
-Proof. exact chain_bound. Qed.
-Print Assumptions C13_quiescence_bound_chain_partial.
+(* Every schedule of every well-formed network is finite: the threads cannot run for ever, whatever the
+   scheduler does (the sum over the mailboxes of a termination measure of the single-mailbox transition
+   system decreases with every step); a schedule that cannot be extended ends in a quiescent state. *)
+Theorem C13_quiescence_reached :
+  forall (N : nat) (n0 : net) (sched : list nat) (n : net),
+    GI N n0 -> nrun n0 sched = Some n -> length sched <= net_mu (n_boxes n0).
+Proof. exact quiescence_reached. Qed.
+Print Assumptions C13_quiescence_reached.
 
-(* quiescence_bound_fanout, counting part: source -> multi-output plugin -> divide_outputs with k outputs,
-   any set of gated outputs, any savers / discarders (`sides`) on any outputs, the consumer on output t. *)
-Theorem C13_quiescence_bound_fanout_partial :
+Theorem C13_maximal_schedule_is_quiescent :
+  forall (n0 : net) (sched : list nat) (n : net),
+    nrun n0 sched = Some n -> (forall w, nrun n0 (sched ++ [w]) = None) -> quiescent n = true.
+Proof. exact maximal_quiescent. Qed.
+Print Assumptions C13_maximal_schedule_is_quiescent.
+
+(* comes_to_rest n0 N p B src :=
+     (forall sched n, nrun n0 sched = Some n -> advances N (n_boxes n) src <= p + B) /\
+     (forall sched n, nrun n0 sched = Some n -> length sched <= net_mu (n_boxes n0)) /\
+     (forall sched n, nrun n0 sched = Some n -> (forall w, nrun n0 (sched ++ [w]) = None) -> quiescent n = true)
+
+   quiescence_bound_chain: a chain of L senders (source + L-1 plugins) with max_messages c, eager or lazy,
+   the consumer takes p chunks: in every reachable state of every schedule the source has been advanced at
+   most p + B_chain L c = p + 2cL + 1 times whatever the run length N (hence, once the consumer has its p
+   chunks, at most B_chain L c further source chunks), and the pipeline reaches a state with no enabled
+   thread. *)
+Theorem C13_quiescence_bound_chain :
+  forall (L c : nat) (lz : bool) (p N : nat),
+    1 <= L -> comes_to_rest (chain_net L c lz p N) N p (B_chain L c) 0.
+Proof. exact quiescence_bound_chain. Qed.
+Print Assumptions C13_quiescence_bound_chain.
+
+(* quiescence_bound_fanout: source -> multi-output plugin -> divide_outputs with k outputs, any set of gated
+   outputs, any savers / discarders (`sides`) on any outputs, the consumer on output t. *)
+Theorem C13_quiescence_bound_fanout :
   forall (k c : nat) (lz : bool) (gated : list nat) (drives : nat -> list bool)
          (sides : list (nat * nat)) (t it p N : nat),
     t < k -> (forall g, In g gated -> 2 <= g) -> (forall j, j < k -> drives j <> []) ->
     it < length (drives t) ->
     (forall u i, In (u, i) sides -> exists j, j < k /\ u = 2 + j /\ i < length (drives j)) ->
     NoDup ((2 + t, it) :: sides) ->
-    forall (sched : list nat) (n : net),
-      nrun (fanout_net k c lz gated drives sides t it p N) sched = Some n ->
-      advances N (n_boxes n) 0 <= p + B_fanout c.
-Proof. exact fanout_bound. Qed.
-Print Assumptions C13_quiescence_bound_fanout_partial.
+    comes_to_rest (fanout_net k c lz gated drives sides t it p N) N p (B_fanout c) 0.
+Proof. exact quiescence_bound_fanout. Qed.
+Print Assumptions C13_quiescence_bound_fanout.
 
 (* The path bound on wirings computed by `wire` (the model of ThreadedMailboxProcessor.__init__): a diamond,
    a multi-output plugin both of whose outputs are required, a 3-output plugin with a saved and a discarded
@@ -139,15 +157,6 @@ Proof. exact fanout3_bound. Qed.
 Print Assumptions C13_bound_wired_fanout3.
 
 (* ---------------- stated, not proved ---------------- *)
-
-(* The second half of quiescence_bound_chain / _fanout: every schedule is finite, so the pipeline reaches
-   a state in which no thread (other than the paused consumer) can run.  It follows from a termination
-   measure of the single mailbox (C05_full_mailbox_terminates, also open) summed over the mailboxes; the
-   check confirms quiescence on every explored implementation run (the scheduler reports it) and in the
-   exhaustively explored model state graphs. *)
-Definition C13_full_quiescence_reached : Prop :=
-  forall (N : nat) (n0 : net), GI N n0 ->
-    exists bound, forall sched n, nrun n0 sched = Some n -> length sched <= bound.
 
 (* General DAGs: (a) every wiring `wire` computes for valid components is well-formed (proved above for the
    families and the listed graphs by wf_b; the check evaluates the wiring of every explored graph against
